@@ -250,6 +250,10 @@ def run(tier, seed):
              ("nested", "def test(a: Qint[2], b: Qint[4]) -> Tuple[Tuple[Qint[2], Qint[4]], Qint[4]]:\n    return ((a, b), b)"),
              ("nested", "def test(a: Tuple[Tuple[Qint[2], bool], Tuple[bool, Qint[2]]], b: bool) -> Tuple[Tuple[bool, Qint[2]], bool, Qint[2]]:\n    return ((a[0][1], a[1][1]), b, a[0][0])"),
              ("nested", "def test(a: Qlist[Tuple[bool, Qint[2]], 2]) -> Tuple[Qint[2], Tuple[bool, bool]]:\n    return (a[1][1], (a[0][0], a[1][0]))"),
+             # a homogeneous container of tuples inside another tuple (the elements are wider than one bit)
+             ("nested", "def test(a: Tuple[bool, bool], b: Qint[2]) -> Tuple[Qlist[Tuple[bool, bool], 2], Qint[2]]:\n    return ([a, (a[1], a[0])], b)"),
+             ("nested", "def test(a: bool, b: Qint[2]) -> Tuple[Qint[2], Qlist[Tuple[bool, Qint[2]], 2], bool]:\n    return (b, [(a, b), (not a, b + 1)], a)"),
+             ("nested", "def test(a: Tuple[Qlist[Tuple[bool, bool], 2], Qint[2]]) -> Tuple[Qint[2], Qlist[Tuple[bool, bool], 2]]:\n    return (a[1], a[0])"),
              ("wide", "def test(a: Qint[12]) -> Qint[12]:\n    return a << 1"),
              ("wide", "def test(a: Qint[8], b: Qint[4]) -> Qint[12]:\n    return a + b"),
              ("mixed-width", "def test(a: Qint[2], b: Qint[4], c: Qint[2]) -> Qint[4]:\n    return a + b + c"),
